@@ -118,9 +118,19 @@ func (c *Ctx) musStep(fn *ssa.Function, cfg musCfg, tok musTok) musOut {
 		return mval{kind: "unknown"}
 	}
 	cur, pred := body, header
-	for steps := 0; steps < 300; steps++ {
+	type mframe struct {
+		call *ssa.Call
+		blk  *ssa.BasicBlock
+		idx  int
+		pred *ssa.BasicBlock
+	}
+	var frames []mframe
+	startIdx := 0
+	for steps := 0; steps < 600; steps++ {
 		var next *ssa.BasicBlock
-		for _, in := range cur.Instrs {
+		jumped := false
+		for ii := startIdx; ii < len(cur.Instrs) && !jumped; ii++ {
+			in := cur.Instrs[ii]
 			switch t := in.(type) {
 			case *ssa.Phi:
 				for i, p := range cur.Preds {
@@ -191,6 +201,19 @@ func (c *Ctx) musStep(fn *ssa.Function, cfg musCfg, tok musTok) musOut {
 					continue
 				}
 				f := calleeObj(cc)
+				if g := cc.StaticCallee(); g != nil && f != nil && c.InModule(g) && g.Blocks != nil && g != fn && len(frames) < 3 &&
+					recvNamed(f) != "Token" && f.Name() != "NewMustacheError" && f.Name() != "NewMustacheToken" {
+					// a helper of the parser (classifyTag(operator1, operator2, bracket)): executed as part of the step
+					for k, prm := range g.Params {
+						if k < len(cc.Args) {
+							env[prm] = get(cc.Args[k])
+						}
+					}
+					frames = append(frames, mframe{t, cur, ii + 1, pred})
+					cur, pred, startIdx = g.Blocks[0], nil, 0
+					jumped = true
+					continue
+				}
 				switch {
 				case f != nil && recvNamed(f) == "Token" && f.Name() == "Value":
 					env[t] = mval{kind: "str", s: tok.val}
@@ -227,6 +250,18 @@ func (c *Ctx) musStep(fn *ssa.Function, cfg musCfg, tok musTok) musOut {
 			case *ssa.Jump:
 				next = cur.Succs[0]
 			case *ssa.Return:
+				if n := len(frames); n > 0 {
+					fr := frames[n-1]
+					frames = frames[:n-1]
+					if len(t.Results) == 1 {
+						env[fr.call] = get(t.Results[0])
+					} else {
+						env[fr.call] = mval{kind: "unknown"}
+					}
+					cur, pred, startIdx = fr.blk, fr.pred, fr.idx
+					jumped = true
+					continue
+				}
 				rv := get(t.Results[0])
 				if rv.kind == "err" {
 					out.kind, out.errCode = "error", rv.code
@@ -235,6 +270,9 @@ func (c *Ctx) musStep(fn *ssa.Function, cfg musCfg, tok musTok) musOut {
 				out.kind = "done"
 				return out
 			}
+		}
+		if jumped {
+			continue
 		}
 		if next == nil {
 			return musOut{kind: "opaque", why: "control flow left the model"}
@@ -271,7 +309,7 @@ func (c *Ctx) musStep(fn *ssa.Function, cfg musCfg, tok musTok) musOut {
 			out.kind = "next"
 			return out
 		}
-		pred, cur = cur, next
+		pred, cur, startIdx = cur, next, 0
 	}
 	return musOut{kind: "opaque", why: "simulation did not terminate"}
 }
@@ -565,237 +603,358 @@ func ruleMusLexer(c *Ctx) []*Obligation {
 	return o.list
 }
 
+// musSectionRun evaluates a section-parsing function abstractly: `remaining` tokens are left at entry, the
+// first one has type typ and a name that is the section's own ("same"), empty ("empty") or another
+// ("other"). The cursor and the token count are concrete integers, so every spelling of the cursor
+// tests (helper methods or direct index arithmetic) evaluates the same way.
+type musSectionOutcome struct {
+	errCode    string   // error code returned, "" for success
+	recursions []string // names the nested-section parser was called with
+	opaque     string
+}
+
+func (c *Ctx) musSectionRun(fn, sec *ssa.Function, remaining int64, typ int64, rel string) musSectionOutcome {
+	res := musSectionOutcome{}
+	cursor := int64(0)
+	nameVal := func() aiVal {
+		switch rel {
+		case "same":
+			return aiSym("variable")
+		case "empty":
+			return aiStr("")
+		}
+		return aiSym("another-name")
+	}
+	ai := &absInterp{c: c, fn: fn, env: map[ssa.Value]aiVal{}}
+	if fn == sec && len(fn.Params) > 1 {
+		ai.env[fn.Params[1]] = aiSym("variable")
+	}
+	ai.cmp = func(a, b aiVal) (bool, bool) {
+		if a.kind == "sym" && b.kind == "sym" {
+			return a.s == b.s, true
+		}
+		if (a.kind == "sym" && b.kind == "str") || (a.kind == "str" && b.kind == "sym") {
+			return false, true // a symbolic name stands for some non-empty text different from every constant
+		}
+		return false, false
+	}
+	ai.inline = func(g *ssa.Function) bool { return recvNamedFn(g) == "MustacheParser" && g != sec }
+	ai.load = func(ai *absInterp, addr ssa.Value) (aiVal, bool) {
+		switch a := addr.(type) {
+		case *ssa.FieldAddr:
+			switch fieldName(a.X.Type(), a.Field) {
+			case "currentTokenIndex":
+				return aiInt(cursor), true
+			case "initialTokens":
+				return aiSym("tokens"), true
+			case "resultTokens":
+				return aiSym("results"), true
+			}
+		case *ssa.IndexAddr:
+			if v := ai.get(a.X); v.kind == "sym" && v.s == "tokens" {
+				return aiSym("token"), true
+			}
+		}
+		return aiVal{}, false
+	}
+	ai.store = func(ai *absInterp, addr ssa.Value, val aiVal) {
+		if fa, ok := addr.(*ssa.FieldAddr); ok && fieldName(fa.X.Type(), fa.Field) == "currentTokenIndex" && val.kind == "int" {
+			cursor = val.n
+		}
+	}
+	ai.call = func(ai *absInterp, call *ssa.Call) (aiVal, bool) {
+		cc := call.Common()
+		if bi, ok := cc.Value.(*ssa.Builtin); ok {
+			switch bi.Name() {
+			case "len":
+				if v := ai.get(cc.Args[0]); v.kind == "sym" && v.s == "tokens" {
+					return aiInt(remaining), true
+				}
+			case "append":
+				return aiSym("list"), true
+			}
+			return aiVal{}, false
+		}
+		f := calleeObj(cc)
+		if f == nil {
+			return aiVal{}, false
+		}
+		switch {
+		case cc.StaticCallee() == sec:
+			a := ai.get(callArgs(cc)[0])
+			n := "?"
+			if a.kind == "sym" {
+				n = a.s
+			} else if a.kind == "str" {
+				n = fmt.Sprintf("%q", a.s)
+			}
+			res.recursions = append(res.recursions, n)
+			return aiVal{kind: "tuple", tup: []aiVal{aiSym("children"), aiNil()}}, true
+		case recvNamed(f) == "MustacheToken":
+			switch f.Name() {
+			case "Type":
+				return aiInt(typ), true
+			case "Value":
+				return nameVal(), true
+			case "Tokens":
+				return aiSym("children-so-far"), true
+			case "SetTokens":
+				return aiUnknown(), true
+			}
+			return aiSym("pos"), true
+		case f.Name() == "NewMustacheToken":
+			return aiSym("new-token"), true
+		case f.Name() == "NewMustacheError":
+			code := "?"
+			if sv := ai.get(cc.Args[1]); sv.kind == "str" {
+				code = sv.s
+			}
+			return aiSym("err:" + code), true
+		}
+		return aiVal{}, false
+	}
+	out := ai.run(fn.Blocks[0], nil, 0)
+	switch out.kind {
+	case "opaque":
+		res.opaque = out.why
+	case "return":
+		last := out.ret[len(out.ret)-1]
+		if last.kind == "sym" && strings.HasPrefix(last.s, "err:") {
+			res.errCode = strings.TrimPrefix(last.s, "err:")
+		} else if last.kind != "nil" {
+			res.opaque = "the error result is outside the model"
+		}
+	default:
+		res.opaque = "the run did not return"
+	}
+	return res
+}
+
 func ruleMusSection(c *Ctx) []*Obligation {
 	o := newObl("MUS.section")
 	sec := c.MustFunc(pkgMParsers, "MustacheParser", "performSyntaxAnalysisForSection")
 	top := c.MustFunc(pkgMParsers, "MustacheParser", "performSyntaxAnalysis")
-	endK, _ := c.constByName(pkgMParsers, "TokenSectionEnd")
-	secK, _ := c.constByName(pkgMParsers, "TokenSection")
-	invK, _ := c.constByName(pkgMParsers, "TokenInvertedSection")
-	ex := c.newExpr(sec)
-	// (1) recursive calls pass the name of the section token just read, under Type ∈ {Section, InvertedSection}
-	for _, fn := range []*ssa.Function{top, sec} {
-		key := c.FuncKey(fn) + "#nested-section-gets-own-name"
-		n, bad := 0, ""
-		for _, ci := range allCalls(fn) {
-			if ci.Common().StaticCallee() != sec {
-				continue
-			}
-			n++
-			arg := callArgs(ci.Common())[0]
-			call, ok := arg.(*ssa.Call)
-			okArg := false
-			var tokV ssa.Value
-			if ok {
-				if f := calleeObj(call.Common()); f != nil && f.Name() == "Value" && recvNamed(f) == "MustacheToken" {
-					okArg = true
-					tokV = callRecv(call.Common())
-				}
-			}
-			if !okArg {
-				bad = "a nested section is parsed with " + c.newExpr(fn).str(arg) + " instead of the name of the section token just read: its end tag is matched against the wrong name"
-				continue
-			}
-			ks, recvs, isOr := c.orEntry(ci.Block(), pkgMParsers, "MustacheToken")
-			if !isOr {
-				bad = "the recursive section parse is not guarded by the token being a section opener"
-				continue
-			}
-			set := map[int64]bool{}
-			for i, k := range ks {
-				set[k] = true
-				if !c.sameValue(recvs[i], tokV) {
-					bad = "the section test and the section name come from different tokens"
-				}
-			}
-			if !(set[secK] && set[invK] && len(set) == 2) {
-				bad = "sections are opened for token types other than exactly Section and InvertedSection"
-			}
+	k := func(n string) int64 {
+		v, ok := c.constByName(pkgMParsers, n)
+		if !ok {
+			panic(anchorError("constant " + n + " not found"))
 		}
-		if n == 0 {
-			bad = "sections are never parsed recursively"
-		}
-		o.check(bad == "", key, c.Pos(fn.Pos()), "nested sections are parsed with their own token's name, for Section/InvertedSection only", bad)
+		return v
 	}
-	// (2) section end matching
-	{
-		key := c.FuncKey(sec) + "#end-tag-matching"
-		// success return (result, nil) guarded by Type==SectionEnd and (Value==variable || Value=="")
-		good := false
-		for _, ret := range returnsOf(sec) {
-			if !isNilConst(ret.Results[1]) {
-				continue
-			}
-			// predecessors: OR of (Value == variable), (Value == "")
-			var conds []string
-			for _, p := range ret.Block().Preds {
-				if ifi, ok := p.Instrs[len(p.Instrs)-1].(*ssa.If); ok && p.Succs[0] == ret.Block() {
-					conds = append(conds, ex.str(ifi.Cond))
-				}
-			}
-			sort.Strings(conds)
-			joined := strings.Join(conds, " || ")
-			typeOK := false
-			for _, p := range ret.Block().Preds {
-				for _, g := range guardsAt(p) {
-					cond, truth := g.atom()
-					if _, k, op, ok := c.typeTestConst(cond, pkgMParsers, "MustacheToken"); ok && k == endK && (op == token.EQL) == truth {
-						typeOK = true
-					}
-				}
-				if ifi, ok := p.Instrs[len(p.Instrs)-1].(*ssa.If); ok {
-					_ = ifi
-				}
-			}
-			if typeOK && strings.Contains(joined, `("" == Value(`) && strings.Contains(joined, `($1 == Value(`) {
-				good = true
-			}
-		}
-		o.check(good, key, c.Pos(sec.Pos()), "a section returns its body exactly at a SectionEnd token whose name is the section's or empty", "a section is not closed exactly by an end tag with its own name or an anonymous end tag ({{/if}}, {{/unless}})")
+	endK, secK, invK, varK := k("TokenSectionEnd"), k("TokenSection"), k("TokenInvertedSection"), k("TokenVariable")
+	type expect struct {
+		key        string
+		fn         *ssa.Function
+		remaining  int64
+		typ        int64
+		rel        string
+		errCode    string
+		recursions string
+		ok, bad    string
 	}
-	// (3) rejections
-	for _, spec := range []struct {
-		fn   *ssa.Function
-		code string
-		what string
-	}{
-		{sec, "UNEXPECTED_SECTION_END", "an end tag with another name inside a section"},
-		{sec, "NOT_CLOSED_SECTION", "a section without an end tag"},
-		{top, "UNEXPECTED_SECTION_END", "an end tag at the top level"},
-	} {
-		key := c.FuncKey(spec.fn) + "#rejects#" + spec.code
-		good := false
-		for _, s := range c.errorCtorSites() {
-			if s.fn == spec.fn && s.code == spec.code && s.live {
-				good = true
-			}
-		}
-		o.check(good, key, c.Pos(spec.fn.Pos()), spec.what+" is rejected with "+spec.code, spec.what+" is no longer rejected with "+spec.code)
+	cases := []expect{
+		{"closed-by-own-name", sec, 1, endK, "same", "", "", "an end tag with the section's name closes it", "an end tag with the section's own name does not close the section"},
+		{"closed-by-anonymous-end", sec, 1, endK, "empty", "", "", "an anonymous end tag ({{/if}}, {{/unless}}) closes it", "an anonymous end tag does not close the section"},
+		{"rejects-other-end-tag", sec, 1, endK, "other", "UNEXPECTED_SECTION_END", "", "an end tag with another name is rejected", "an end tag with another name inside a section is not rejected with UNEXPECTED_SECTION_END"},
+		{"nested-section-gets-own-name", sec, 1, secK, "other", "NOT_CLOSED_SECTION", "another-name", "a nested section is parsed with its own name", "a nested section is not parsed with the name of the section token just read: its end tag is matched against the wrong name"},
+		{"nested-inverted-section-gets-own-name", sec, 1, invK, "other", "NOT_CLOSED_SECTION", "another-name", "a nested inverted section is parsed with its own name", "a nested inverted section is not parsed with the name of its own token"},
+		{"plain-token-continues", sec, 1, varK, "other", "NOT_CLOSED_SECTION", "", "other tokens are collected and the loop goes on; running out of tokens is NOT_CLOSED_SECTION", "a token inside a section is not simply collected, or a section without an end tag is not rejected with NOT_CLOSED_SECTION"},
+		{"empty-section-at-end-of-input", sec, 0, varK, "other", "UNEXPECTED_END", "", "a section opener as the last token is UNEXPECTED_END", "a section with nothing after its opener is not rejected with UNEXPECTED_END"},
+		{"top-level-end-tag-rejected", top, 1, endK, "other", "UNEXPECTED_SECTION_END", "", "an end tag at the top level is rejected", "an end tag at the top level is not rejected with UNEXPECTED_SECTION_END"},
+		{"top-level-section-gets-own-name", top, 1, secK, "other", "", "another-name", "a top-level section is parsed with its own name", "a top-level section is not parsed with the name of its own token"},
+		{"top-level-inverted-section-gets-own-name", top, 1, invK, "other", "", "another-name", "a top-level inverted section is parsed with its own name", "a top-level inverted section is not parsed with the name of its own token"},
+		{"top-level-plain-token", top, 1, varK, "other", "", "", "other tokens are collected; the end of the tokens ends the parse", "a plain token at the top level is not simply collected"},
 	}
-	// (4) the not-closed error is reached exactly when the tokens run out inside the section
-	{
-		key := c.FuncKey(sec) + "#unclosed-after-loop"
-		good := false
-		for _, s := range c.errorCtorSites() {
-			if s.fn == sec && s.code == "NOT_CLOSED_SECTION" {
-				for _, g := range guardsAt(s.call.Block()) {
-					cond, truth := g.atom()
-					if call, ok := cond.(*ssa.Call); ok && !truth {
-						if f := calleeObj(call.Common()); f != nil && f.Name() == "hasMoreTokens" {
-							good = true
-						}
-					}
-				}
+	for _, e := range cases {
+		key := c.FuncKey(e.fn) + "#" + e.key
+		r := c.musSectionRun(e.fn, sec, e.remaining, e.typ, e.rel)
+		switch {
+		case r.opaque != "":
+			o.undecided(key, c.Pos(e.fn.Pos()), r.opaque)
+		case r.errCode != e.errCode || strings.Join(r.recursions, ",") != e.recursions:
+			got := "success"
+			if r.errCode != "" {
+				got = "error " + r.errCode
 			}
+			o.bad(key, c.Pos(e.fn.Pos()), fmt.Sprintf("%s (abstract run: %s, nested parses for [%s])", e.bad, got, strings.Join(r.recursions, ",")))
+		default:
+			o.ok(key, c.Pos(e.fn.Pos()), e.ok)
 		}
-		o.check(good, key, c.Pos(sec.Pos()), "NOT_CLOSED_SECTION is returned when hasMoreTokens() becomes false inside a section", "the unclosed-section error is not tied to running out of tokens inside the section")
 	}
 	return o.list
+}
+
+// musRenderRun evaluates one iteration of the renderer's token loop abstractly for a token of type typ,
+// a variable that is present/absent and defined/undefined, and a child list that is nil or not.
+// It returns what is written to the output builder (symbolic), or the error code returned.
+func (c *Ctx) musRenderRun(fn *ssa.Function, typ int64, present, defined, tokensNil bool) (writes []string, errCode string, opaque string) {
+	header, body := loopWithPhi(fn, "rangeindex")
+	if header == nil {
+		return nil, "", "token loop not found"
+	}
+	name := func(v aiVal) string {
+		switch v.kind {
+		case "sym":
+			return v.s
+		case "str":
+			return fmt.Sprintf("%q", v.s)
+		case "nil":
+			return "nil"
+		}
+		return "?"
+	}
+	modelled := map[string]bool{"GetVariable": true, "isDefinedVariable": true, "escapeString": true, "evaluateTokens": true}
+	ai := &absInterp{c: c, fn: fn, env: map[ssa.Value]aiVal{}}
+	ai.inline = func(g *ssa.Function) bool {
+		return recvNamedFn(g) == "MustacheTemplate" && !modelled[g.Name()]
+	}
+	ai.load = func(ai *absInterp, addr ssa.Value) (aiVal, bool) {
+		if ia, ok := addr.(*ssa.IndexAddr); ok && ia.X == ssa.Value(fn.Params[1]) {
+			return aiSym("token"), true
+		}
+		if v := ai.get(addr); v.kind == "sym" && v.s == "varptr" {
+			return aiSym("*var"), true
+		}
+		return aiVal{}, false
+	}
+	ai.call = func(ai *absInterp, call *ssa.Call) (aiVal, bool) {
+		cc := call.Common()
+		if bi, ok := cc.Value.(*ssa.Builtin); ok {
+			if bi.Name() == "len" && cc.Args[0] == ssa.Value(fn.Params[1]) {
+				return aiSym("len(tokens)"), true
+			}
+			return aiVal{}, false
+		}
+		f := calleeObj(cc)
+		if f == nil {
+			return aiVal{}, false
+		}
+		switch {
+		case recvNamed(f) == "MustacheToken":
+			switch f.Name() {
+			case "Type":
+				return aiInt(typ), true
+			case "Value":
+				return aiSym("name"), true
+			case "Tokens":
+				if tokensNil {
+					return aiNil(), true
+				}
+				return aiSym("children"), true
+			}
+			return aiSym("pos"), true
+		case f.Name() == "GetVariable":
+			if present {
+				return aiSym("varptr"), true
+			}
+			return aiNil(), true
+		case f.Name() == "isDefinedVariable":
+			return aiBool(defined), true
+		case f.Name() == "escapeString":
+			return aiSym("escape(" + name(ai.get(callArgs(cc)[0])) + ")"), true
+		case f.Name() == "evaluateTokens":
+			return aiVal{kind: "tuple", tup: []aiVal{aiSym("render(" + name(ai.get(callArgs(cc)[0])) + ")"), aiNil()}}, true
+		case f.Name() == "NewMustacheError":
+			code := "?"
+			if sv := ai.get(cc.Args[1]); sv.kind == "str" {
+				code = sv.s
+			}
+			return aiSym("err:" + code), true
+		case f.Pkg() != nil && f.Pkg().Path() == "strings" && recvNamed(f) == "Builder" && f.Name() == "WriteString":
+			writes = append(writes, name(ai.get(cc.Args[1])))
+			return aiUnknown(), true
+		case f.Pkg() != nil && f.Pkg().Path() == "strings" && recvNamed(f) == "Builder":
+			return aiSym("built"), true
+		}
+		return aiVal{}, false
+	}
+	ai.stop = func(from, to *ssa.BasicBlock) bool { return to == header }
+	out := ai.run(body, header, 0)
+	switch out.kind {
+	case "opaque":
+		return nil, "", out.why
+	case "return":
+		if len(out.ret) == 2 && out.ret[1].kind == "sym" && strings.HasPrefix(out.ret[1].s, "err:") {
+			return writes, strings.TrimPrefix(out.ret[1].s, "err:"), ""
+		}
+		return writes, "returns", ""
+	}
+	return writes, "", ""
 }
 
 func ruleMusRender(c *Ctx) []*Obligation {
 	o := newObl("MUS.render")
 	fn := c.MustFunc("mustache", "MustacheTemplate", "evaluateTokens")
-	ex := c.newExpr(fn)
-	names := map[int64]string{}
-	for _, n := range []string{"TokenValue", "TokenVariable", "TokenEscapedVariable", "TokenSection", "TokenInvertedSection", "TokenSectionEnd", "TokenPartial", "TokenComment"} {
-		if v, ok := c.constByName(pkgMParsers, n); ok {
-			names[v] = strings.TrimPrefix(n, "Token")
-		}
-	}
-	// case bodies
-	type body struct {
-		writes []string
-		guards []string
-		block  *ssa.BasicBlock
-		errs   []string
-	}
-	cases := map[string]*body{}
-	for _, b := range fn.Blocks {
-		ifi, ok := b.Instrs[len(b.Instrs)-1].(*ssa.If)
+	types := map[string]int64{}
+	for _, n := range []string{"TokenValue", "TokenVariable", "TokenEscapedVariable", "TokenSection", "TokenInvertedSection", "TokenComment"} {
+		v, ok := c.constByName(pkgMParsers, n)
 		if !ok {
-			continue
+			panic(anchorError("constant " + n + " not found"))
 		}
-		_, k, op, ok := c.typeTestConst(ifi.Cond, pkgMParsers, "MustacheToken")
-		if !ok || op != token.EQL {
-			continue
+		types[strings.TrimPrefix(n, "Token")] = v
+	}
+	// the renderer's loop body evaluated for every cell of (token type × variable present × defined × children nil)
+	want := func(tn string, present, defined, tokensNil bool) []string {
+		switch tn {
+		case "Value":
+			return []string{"name"}
+		case "Variable":
+			if present {
+				return []string{"*var"}
+			}
+		case "EscapedVariable":
+			if present {
+				return []string{"escape(*var)"}
+			}
+		case "Section":
+			if defined && !tokensNil {
+				return []string{"render(children)"}
+			}
+		case "InvertedSection":
+			if !defined && !tokensNil {
+				return []string{"render(children)"}
+			}
 		}
-		bd := &body{block: b.Succs[0]}
-		caseBlocks := dominatedBlocks(b.Succs[0])
-		if len(b.Succs[0].Preds) != 1 {
-			caseBlocks = nil // empty case body: the true edge goes straight to the loop latch
-			bd.block = b
-		}
-		for _, d := range caseBlocks {
-			for _, in := range d.Instrs {
-				call, ok := in.(*ssa.Call)
-				if !ok {
-					continue
-				}
-				f := calleeObj(call.Common())
-				if f != nil && f.Pkg() != nil && f.Pkg().Path() == "strings" && f.Name() == "WriteString" {
-					var gs []string
-					for _, g := range guardsAt(d) {
-						if g.If.Block() == b || !b.Succs[0].Dominates(g.If.Block()) && g.If.Block() != b.Succs[0] {
-							continue
-						}
-						s := ex.str(g.Cond)
-						if !g.Truth {
-							s = "!" + s
-						}
-						gs = append(gs, s)
+		return nil
+	}
+	what := map[string]string{
+		"Value": "text is written verbatim", "Variable": "the variable's value is written when present, nothing otherwise",
+		"EscapedVariable": "the escaped value is written when present, nothing otherwise",
+		"Section":         "the body is rendered iff the variable is defined and non-empty",
+		"InvertedSection": "the body is rendered iff the variable is not defined/non-empty", "Comment": "comments render nothing",
+	}
+	for _, tn := range []string{"Value", "Variable", "EscapedVariable", "Section", "InvertedSection", "Comment"} {
+		key := c.FuncKey(fn) + "#case#" + tn
+		bad, undec, n := "", "", 0
+		for _, pd := range [][2]bool{{false, false}, {true, false}, {true, true}} {
+			for _, tokensNil := range []bool{false, true} {
+				n++
+				writes, errCode, opaque := c.musRenderRun(fn, types[tn], pd[0], pd[1], tokensNil)
+				ctx := fmt.Sprintf("[variable present %v, defined %v, children nil %v]", pd[0], pd[1], tokensNil)
+				w := want(tn, pd[0], pd[1], tokensNil)
+				switch {
+				case opaque != "":
+					undec = opaque + " " + ctx
+				case errCode != "":
+					if bad == "" {
+						bad = "a " + tn + " token ends the rendering (" + errCode + ") " + ctx
 					}
-					sort.Strings(gs)
-					bd.writes = append(bd.writes, ex.str(call.Call.Args[1])+" if ["+strings.Join(gs, " && ")+"]")
-				}
-				if f != nil && f.Name() == "NewMustacheError" {
-					if s, ok := constString(call.Call.Args[1]); ok {
-						bd.errs = append(bd.errs, s)
+				case strings.Join(writes, " ") != strings.Join(w, " "):
+					if bad == "" {
+						bad = fmt.Sprintf("a %s token writes [%s], expected [%s] %s", tn, strings.Join(writes, " "), strings.Join(w, " "), ctx)
 					}
 				}
 			}
 		}
-		cases[names[k]] = bd
-	}
-	check := func(name string, good bool, okMsg, badMsg string) {
-		key := c.FuncKey(fn) + "#case#" + name
-		bd := cases[name]
-		pos := c.Pos(fn.Pos())
-		if bd == nil {
-			o.bad(key, pos, "the renderer has no case for "+name+" tokens: a template containing one fails with INTERNAL")
-			return
-		}
-		for _, in := range bd.block.Instrs {
-			if in.Pos().IsValid() {
-				pos = c.Pos(in.Pos())
-				break
-			}
-		}
-		if good {
-			o.ok(key, pos, okMsg)
-		} else {
-			o.bad(key, pos, badMsg+" (writes: "+strings.Join(bd.writes, "; ")+")")
+		switch {
+		case bad != "":
+			o.bad(key, c.Pos(fn.Pos()), bad)
+		case undec != "":
+			o.undecided(key, c.Pos(fn.Pos()), undec)
+		default:
+			o.ok(key, c.Pos(fn.Pos()), fmt.Sprintf("%d abstract run(s): %s", n, what[tn]))
 		}
 	}
-	has := func(name, sub string) bool {
-		bd := cases[name]
-		if bd == nil {
-			return false
-		}
-		for _, w := range bd.writes {
-			if strings.Contains(w, sub) {
-				return true
-			}
-		}
-		return false
-	}
-	one := func(name string) bool { return cases[name] != nil && len(cases[name].writes) == 1 }
-	check("Value", one("Value") && has("Value", "Value($1[") && has("Value", "if []"), "text is written verbatim", "text tokens are not written verbatim and unconditionally")
-	check("Variable", one("Variable") && has("Variable", "*GetVariable($0, $2, Value(") && !has("Variable", "escapeString"), "writes the variable's value when present", "a variable is not rendered as its value (when present)")
-	check("EscapedVariable", one("EscapedVariable") && has("EscapedVariable", "escapeString($0, *GetVariable($0, $2, Value("), "writes the escaped value when present", "an escaped variable is not rendered through escapeString")
-	check("Section", one("Section") && has("Section", "evaluateTokens($0, Tokens(") && has("Section", "isDefinedVariable($0, $2, Value(") && !has("Section", "!isDefinedVariable"), "body rendered iff the variable is defined and non-empty", "a section's body is not rendered exactly when its variable is defined and non-empty")
-	check("InvertedSection", one("InvertedSection") && has("InvertedSection", "evaluateTokens($0, Tokens(") && has("InvertedSection", "!isDefinedVariable($0, $2, Value("), "body rendered iff the variable is not defined/non-empty", "an inverted section's body is not rendered exactly when its variable is absent or empty")
-	check("Comment", cases["Comment"] != nil && len(cases["Comment"].writes) == 0 && len(cases["Comment"].errs) == 0, "comments render nothing", "a comment token writes output or raises an error")
 	// isDefinedVariable: present and non-empty
 	{
 		idv := c.MustFunc("mustache", "MustacheTemplate", "isDefinedVariable")
